@@ -1043,6 +1043,20 @@ class Walker:
             if not nxt:
                 return None
             st = nxt[0].state
+            if len(nxt) > 1:
+                # join of the normal paths: a name keeps its value only where all paths agree
+                for k in list(st.env):
+                    vals = [o.state.env.get(k, None) for o in nxt]
+                    if any(vkey(v) != vkey(vals[0]) for v in vals[1:]):
+                        if isinstance(k, str) and k.isidentifier():
+                            st.env[k] = self.new_atom(k)
+                        else:
+                            del st.env[k]
+                for o in nxt[1:]:
+                    for k in o.state.env:
+                        if k not in st.env and isinstance(k, str) and k.isidentifier():
+                            st.env[k] = self.new_atom(k)
+                st.conds = [c for c in st.conds if all(any(c[0].key() == c2[0].key() for c2 in o.state.conds) for o in nxt[1:])]
         return None
 
     @staticmethod
